@@ -294,6 +294,19 @@ func (run *Run) cacheOrder(pkg string) {
 	warm := write(reflect.New(outerB).Elem().Interface(), true)
 	run.Rep.AddEval(2, 1)
 	run.Rep.Count("c07.cacheorder."+pkg, 1)
+	// the other order: the nested type first written WITH OmitEmpty, then the outer type without
+	_, outerC := mk(pkg + "c")
+	innerD, outerD := mk(pkg + "d")
+	cold2 := write(reflect.New(outerC).Elem().Interface(), false)
+	omitInner := write(reflect.New(innerD).Elem().Interface(), true)
+	warm2 := write(reflect.New(outerD).Elem().Interface(), false)
+	run.Rep.AddEval(2, 1)
+	if cold2 != warm2 {
+		run.Rep.Add(lib.Finding{Kind: "violation", Class: "cacheorder-rev:" + pkg,
+			What: fmt.Sprintf("%s: writing a struct with a nested struct field WITHOUT OmitEmpty gives %s as the first call and %s after a call that wrote the nested type with OmitEmpty (%s)",
+				pkg, cold2, warm2, omitInner),
+			Replay: map[string]any{"scenario": "cacheorder", "pkg": pkg}})
+	}
 	if cold == warm {
 		return
 	}
@@ -301,7 +314,8 @@ func (run *Run) cacheOrder(pkg string) {
 		What: fmt.Sprintf("%s: writing a struct with a nested struct field under OmitEmpty gives %s as the first call and %s after a call that wrote the nested type without OmitEmpty (%s)",
 			pkg, cold, warm, plainInner),
 		Replay: map[string]any{"scenario": "cacheorder", "pkg": pkg}}
-	// known: the nested plan is the one cached WITHOUT OmitEmpty, nothing else differs
+	// finding C07-struct-cache-omitempty (fixed by 8169704; the predicate only applies while the entry is
+	// listed as known): the nested plan is the one cached WITHOUT OmitEmpty, nothing else differs
 	emptyInner := "{}"
 	if lib.HasKnown(run.Known, "C07-struct-cache-omitempty") && strings.Count(cold, emptyInner) == 1 &&
 		strings.Replace(cold, emptyInner, plainInner, 1) == warm {
